@@ -7,6 +7,13 @@ PROPS = {
         "bounds": "argument count: any usize; parameter lists: the enumerated shapes of <= 3 parameters",
         "outside": "definition-time capture and positional binding through Environment (std HashMap) - see DESIGN.md",
     },
+    "C06": {
+        "engine": "kani", "module": "c06", "timeout": {"quick": 900, "thorough": 2400},
+        "functions": ["values::SerializableValue::to_json", "values::SerializableValue::from_json", "values::SerializableValue::to_value", "values::SerializableValue::from_value", "heap::Heap::insert_list", "heap::Heap::insert_string"],
+        "bounds": "scalars: every finite double (JSON value stage), every double / boolean / null (heap stage); strings: 3 ASCII bytes (thorough); lists: flat, exactly 3 scalar elements (number, boolean, number) with symbolic contents, each direction of the heap stage separately; one shared-substructure shape [row, row] with row = [a]",
+        "outside": "the JSON text stage (serde_json writer/reader, ryu printing, float parsing: float<->text, input-proportional scanners), records (IndexMap), lists through the JSON value stage, nested lists built by the code under test, the whole in-process chain on lists, lists of other lengths, non-ASCII strings, the CLI's parse_json_inputs / write_outputs",
+        "assumptions": ["anyhow error construction = failed check (scalar harnesses) or end of path (list harnesses, whose results are unwrapped: an Err fails the check)", "shared-substructure harness: parser::get_pairs, expr_to_source_with_scope and parse_function_source replaced by failing cuts (plain data must not reach the function-source machinery)"],
+    },
     "C07": {
         "engine": "kani", "module": "c07", "timeout": {"quick": 600, "thorough": 1800},
         "functions": ["ast_to_source::needs_parens_in_binop", "precedence::operator_info", "ast_to_source::expr_to_source"],
@@ -52,10 +59,10 @@ PROPS = {
     },
     "C18": {
         "engine": "kani", "module": "c18", "timeout": {"quick": 900, "thorough": 2400},
-        "functions": ["functions::FunctionDef::call (depth guard, built-in branch)", "functions::FunctionDef::check_arity"],
-        "bounds": "call_depth: any usize; one built-in callee",
-        "outside": "that 1000 nested calls fit the native stack and that a few hundred levels complete in the release CLI (CBMC has no stack model); lambda callees (Environment/HashMap)",
-        "assumptions": ["std::time::Instant::now stubbed with a fixed instant (only stored in the call-statistics log)"],
+        "functions": ["functions::FunctionDef::call (depth guard, built-in branch)", "functions::FunctionDef::check_arity", "expressions::evaluate_ast (Conditional, List, BinaryOp arms: call_depth plumbing)", "expressions::evaluate_binary_op_ast (into / via / where / ?? arms)"],
+        "bounds": "call_depth: any usize; one built-in callee; propagation: one call (x into abs) bare vs wrapped in a conditional, a ?? operand, a list element, via and where callbacks",
+        "outside": "that 1000 nested calls fit the native stack and that a few hundred levels complete in the release CLI (CBMC has no stack model); lambda callees (Environment/HashMap); do-blocks (Environment::extend + drop does not finish); the Expr::Call arm (Kani mis-models that variant, DESIGN 2(12))",
+        "assumptions": ["std::time::Instant::now stubbed with a fixed instant (only stored in the call-statistics log)", "propagation harnesses: FunctionDef::call replaced by a recorder of the depth it receives (the guard inside the real call is decided by c18_q_builtin_depth_guard)"],
     },
     "C02": {
         "engine": "kani", "module": "c02", "timeout": {"quick": 900, "thorough": 2400},
